@@ -10,6 +10,7 @@ The window theorems say that the node IS not-ON at every tick of a countdown, fo
 -/
 import PrimaiteModel.Model.FilterPower
 import PrimaiteModel.Props.C06
+import PrimaiteModel.Gen.FilterPower
 namespace Primaite.FilterPower
 open Primaite Primaite.Filter Primaite.Cut
 
@@ -370,3 +371,63 @@ theorem C06_shutdown_window_inert (hk : SoftCall → W → W) (soft : Soft W) (n
     | succ k ih => intro m h; exact ih _ (step_inv hk m .tick h)
   apply C06_not_on_inert soft _ (hrun k _ (step_inv hk n .powerOff (inv_of_on hon)))
   rw [C06_shutdown_window hk n d hon hd hpos k hk']; decide
+
+/-! ### tie to the source -/
+
+/-- the programs the theorems above are about ARE the method bodies of `Node` as the extractor translates them statement by statement
+(assignments of `operating_state`, the interface loops, countdown arming / decrementing, `is_resetting`, the hooks' software loops,
+inlined calls, every `if` and `return`; logging dropped) -/
+theorem C06_gen_power_programs :
+    Gen.FilterPower.startUp = startUpProg ∧ Gen.FilterPower.shutDown = shutDownProg ∧ Gen.FilterPower.powerOn = powerOnProg ∧
+    Gen.FilterPower.powerOff = powerOffProg ∧ Gen.FilterPower.reset = resetProg ∧ Gen.FilterPower.tickUp = tickUpProg ∧
+    Gen.FilterPower.tickDown = tickDownProg := by decide
+
+/-- `enable()` of a wired and of a wireless interface refuses while the node is not ON (the guard sits before `self.enabled = True`),
+`disable()` always clears the flag; no subclass of `Node` redefines a translated method -/
+theorem C06_gen_power_interfaces :
+    Gen.FilterPower.wiredEnable = ["guard:self.enabled", "guard:not self._connected_node",
+      "guard:self._connected_node.operating_state != NodeOperatingState.ON", "guard:not self._connected_link", "set:enabled"] ∧
+    Gen.FilterPower.wirelessEnable = ["guard:self.enabled", "guard:not self._connected_node",
+      "guard:self._connected_node.operating_state != NodeOperatingState.ON", "set:enabled"] ∧
+    Gen.FilterPower.wiredDisable = ["guard:not self.enabled", "set:disabled"] ∧
+    Gen.FilterPower.wirelessDisable = ["guard:not self.enabled", "set:disabled"] ∧
+    Gen.FilterPower.definers = ["Node._shut_down_actions", "Node._start_up_actions", "Node.power_off", "Node.power_on", "Node.reset"] := by
+  decide
+
+/-! ### non-vacuity, and what the moved loop looks like -/
+
+def exIf (en : Bool) : Iface := { enabled := en, mac := 7, ip := 0x0A000202#32, mask := 0xFFFFFF00#32 }
+
+/-- a switch that is ON with two linked, enabled ports; `shut_down_duration = start_up_duration = 3` -/
+def exSwitch : PNode Unit :=
+  { nd := { kind := .switch, on := true, ifaces := [exIf true, exIf true], acls := fun _ => Acl.Acl.empty 0 .deny, sw := () },
+    st := .on, upCd := 0, downCd := 0, upDur := 3, downDur := 3, resetting := false, linked := fun _ => true }
+
+def noHooks : SoftCall → Unit → Unit := fun _ _ => ()
+
+def flags (n : PNode Unit) : List Bool := n.nd.ifaces.map (·.enabled)
+
+example : Inv exSwitch := inv_of_on rfl
+/-- the accepted shutdown takes both ports down at once, they stay down through the countdown, OFF after the 4th tick -/
+example : (List.range 6).map (fun k => ((ticks noHooks k (step noHooks exSwitch .powerOff)).st, flags (ticks noHooks k (step noHooks exSwitch .powerOff))))
+    = [(.shuttingDown, [false, false]), (.shuttingDown, [false, false]), (.shuttingDown, [false, false]), (.shuttingDown, [false, false]),
+       (.off, [false, false]), (.off, [false, false])] := by decide
+/-- reset: 4 moments SHUTTING_DOWN, 4 moments BOOTING, then ON with the ports up again -/
+example : (List.range 10).map (fun k => (ticks noHooks k (step noHooks exSwitch .reset)).st)
+    = [.shuttingDown, .shuttingDown, .shuttingDown, .shuttingDown, .booting, .booting, .booting, .booting, .on, .on] := by decide
+example : flags (ticks noHooks 8 (step noHooks exSwitch .reset)) = [true, true] := by decide
+
+/-- `power_off` with the interface loop moved into `_shut_down_actions` (the shape of seeded change C06-f) -/
+def powerOffMovedProg : Stmt :=
+  seqs [.ite .downDurLe0
+          (seqs [.scope (seqs [.disableAll, .soft .svcStop, .soft .appClose]), .setSt .off,
+                 .ite .resetting (seqs [.setResetting false, .scope powerOnProg]) .skip, .ret true]) .skip,
+        .ite (.stIs .on) (seqs [.setSt .shuttingDown, .armDown, .ret true]) .skip,
+        .ret false]
+
+/-- … breaks the invariant: the switch is SHUTTING_DOWN with both ports still enabled, so `switchRx` runs on every frame -/
+theorem C06_moved_interface_loop_counterexample :
+    Inv exSwitch ∧ ¬ Inv (exec noHooks powerOffMovedProg exSwitch).1 := by
+  refine ⟨inv_of_on rfl, fun h => ?_⟩
+  have := h (by decide) (exIf true) (by decide)
+  exact absurd this (by decide)
